@@ -4,8 +4,11 @@
   `owned_slice::Drain`: it keeps `tail_start` / `tail_len` and a `slice::Iter` over the drained range).
 
   `replace_with` is an iterator that owns the ids `src` (it never panics; what it still owns when it is
-  dropped is dropped), and whose `size_hint().0` is `min remaining hintCap` (`hintCap` large: exact hint,
-  `hintCap = 0`: the iterator promises nothing, the `collected` fallback runs).
+  dropped is dropped).  Its `size_hint().0` is `spliceLower hintCap lie remaining`: an honest source reports
+  `min remaining hintCap` (`hintCap` large: exact, `hintCap = 0`: promises nothing, the `collected` fallback runs);
+  a LYING source (`lie = some l`) reports `l` whatever is left — over-reporting included, up to numbers for which
+  the reservation ends in the "capacity overflow" panic (`capOverflow`, `maxCap = isize::MAX / T::SIZE`) in the
+  middle of `Splice::drop`; the unwind then runs `Drain::drop` and drops `replace_with`.
   The caller pulls according to a script and then drops the `Splice`.
 -/
 import BumpProof.Coll.Iter
@@ -72,29 +75,76 @@ def spliceExtendLoop (env : Env) : Vec → List Id → M (Vec × List Id × Bool
       | .ret _ => spliceExtendLoop env r.vec src
       | .panic _ => .ok (r.vec, src, true)
 
-/-- `if lower_bound > 0 { self.drain.move_tail(lower_bound); if !self.drain.fill(&mut self.replace_with) { return } }`
-    (splice.rs l.78-83); the flag: go on to the `collected` part -/
-def spliceSecond (env : Env) (v : Vec) (d : DrainSt) (src : List Id) (lower : Nat) : M (Vec × DrainSt × List Id × Bool) :=
-  if lower > 0 then
-    match spliceMoveTail env v d lower with
-    | .error e => .error e
-    | .ok (v, d) =>
-      match spliceFill (d.tailStart - v.len) v src with
-      | .error e => .error e
-      | .ok (v, src, filled) => .ok (v, d, src, filled)
-  else .ok (v, d, src, true)
+/-- `replace_with.size_hint().0` with `remaining` items left: an honest iterator reports `min remaining hintCap`
+    (it may under-report), a LYING one reports `l` whatever is left (over-reporting included) -/
+def spliceLower (hintCap : Nat) (lie : Option Nat) (remaining : Nat) : Nat :=
+  match lie with
+  | some l => l
+  | none => min remaining hintCap
 
-/-- the body of `impl Drop for Splice` after the `for_each(drop)` (splice.rs l.64-104); the flag says
-    whether it unwound (a refused reservation); the list is what `replace_with` still owns -/
-def spliceBody (env : Env) (v : Vec) (d : DrainSt) (src : List Id) (hintCap : Nat) : M (Vec × DrainSt × List Id × Bool) :=
-  if d.tailLen = 0 then
-    -- `self.drain.vec.as_mut().extend(self.replace_with.by_ref()); return`
-    match reserve env v (min src.length hintCap) with
-    | none => .ok (v, d, src, true)
+/-- does a reservation of `additional` slots beyond `len` end in the "capacity overflow" panic?
+    `generic_reserve` l.1909 / `buf_reserve` l.2619: only when it does not fit; then `generic_grow_amortized(_buf)`
+    (l.2665 / l.2695) computes `max (max (cap*2) (len+additional)) min_non_zero_cap` and `generic_grow_to`
+    (l.2732) finds no valid layout for it: more than `maxCap = isize::MAX / T::SIZE` elements.
+    (`len.checked_add(additional)` overflowing `usize` is the same case: the sum exceeds `maxCap`.)
+    An allocation FAILURE is not an outcome here: `panic-on-alloc` aborts the process. -/
+def capOverflow (env : Env) (maxCap : Nat) (v : Vec) (len additional : Nat) : Bool :=
+  decide (additional > v.cap - len) && decide (max (max (v.cap * 2) (len + additional)) env.minCap > maxCap)
+
+/-- `impl Extend<T> for BumpVec` (`bump_vec.rs` l.3344-3352): `self.reserve(iter.size_hint().0); for value in iter
+    { self.push(value) }`, the source owning `src` and reporting its length like the one of `splice`
+    (honest / under-reporting / lying); a "capacity overflow" of the up-front reservation unwinds before
+    anything is pushed, the source is dropped with everything it owns -/
+def extendIter (env : Env) (v : Vec) (src : List Id) (hintCap : Nat) (lie : Option Nat) (maxCap : Nat) : M (Out Unit) :=
+  let lower := spliceLower hintCap lie src.length
+  if capOverflow env maxCap v v.len lower then .ok ⟨dropArgs v src, .panic false, []⟩
+  else
+    match reserve env v lower with
+    | none => .ok ⟨dropArgs v src, .panic false, []⟩
     | some v =>
       match spliceExtendLoop env v src with
       | .error e => .error e
-      | .ok (v, src, p) => .ok (v, d, src, p)
+      | .ok (v, rest, p) => .ok ⟨dropArgs v rest, if p then .panic false else .ret (), []⟩
+
+/-- how a step of `Splice::drop` ends: go on with the next one, `return`, or unwind ("capacity overflow") -/
+inductive SpliceStep where
+  | goOn | done | unwind
+  deriving DecidableEq, Repr, Inhabited
+
+/-- `if lower_bound > 0 { self.drain.move_tail(lower_bound); if !self.drain.fill(&mut self.replace_with) { return } }`
+    (splice.rs l.78-83); `move_tail` reserves FIRST (`buf_reserve`, which may panic) and only then touches
+    `tail_start` -/
+def spliceSecond (env : Env) (maxCap : Nat) (v : Vec) (d : DrainSt) (src : List Id) (lower : Nat) :
+    M (Vec × DrainSt × List Id × SpliceStep) :=
+  if lower > 0 then
+    if capOverflow env maxCap v (d.tailStart + d.tailLen) lower then .ok (v, d, src, .unwind)
+    else
+      match spliceMoveTail env v d lower with
+      | .error e => .error e
+      | .ok (v, d) =>
+        match spliceFill (d.tailStart - v.len) v src with
+        | .error e => .error e
+        | .ok (v, src, filled) => .ok (v, d, src, if filled then .goOn else .done)
+  else .ok (v, d, src, .goOn)
+
+/-- the body of `impl Drop for Splice` after the `for_each(drop)` (splice.rs l.64-104); the flag says
+    whether it unwound (a refused reservation / "capacity overflow"); the list is what `replace_with` still owns.
+    The size hint is consulted in three places: `extend` → `reserve(hint)`, `move_tail(lower_bound)`, and
+    `from_iter_in` → `with_capacity(hint)`; only these reservations are about a CLAIMED count (the others are
+    about values that exist, which always fit the address space). -/
+def spliceBody (env : Env) (v : Vec) (d : DrainSt) (src : List Id) (hintCap : Nat) (lie : Option Nat) (maxCap : Nat) :
+    M (Vec × DrainSt × List Id × Bool) :=
+  if d.tailLen = 0 then
+    -- `self.drain.vec.as_mut().extend(self.replace_with.by_ref()); return`: `self.reserve(iter.size_hint().0)` …
+    let lower := spliceLower hintCap lie src.length
+    if capOverflow env maxCap v v.len lower then .ok (v, d, src, true)
+    else
+      match reserve env v lower with
+      | none => .ok (v, d, src, true)
+      | some v =>
+        match spliceExtendLoop env v src with
+        | .error e => .error e
+        | .ok (v, src, p) => .ok (v, d, src, p)
   else
     -- `if !self.drain.fill(&mut self.replace_with) { return }`
     match spliceFill (d.tailStart - v.len) v src with
@@ -102,14 +152,16 @@ def spliceBody (env : Env) (v : Vec) (d : DrainSt) (src : List Id) (hintCap : Na
     | .ok (v, src, false) => .ok (v, d, src, false)
     | .ok (v, src, true) =>
       -- `let (lower_bound, _) = self.replace_with.size_hint(); if lower_bound > 0 { move_tail; fill }`
-      let lower := min src.length hintCap
-      match spliceSecond env v d src lower with
+      match spliceSecond env maxCap v d src (spliceLower hintCap lie src.length) with
       | .error e => .error e
-      | .ok (v, d, src, false) => .ok (v, d, src, false)
-      | .ok (v, d, src, true) =>
+      | .ok (v, d, src, .unwind) => .ok (v, d, src, true)
+      | .ok (v, d, src, .done) => .ok (v, d, src, false)
+      | .ok (v, d, src, .goOn) =>
         -- `collected = BumpVec::from_iter_in(&mut self.replace_with, allocator)…into_iter()`: the rest, in a
-        -- buffer of its own; `if collected.len() > 0 { move_tail(collected.len()); fill(&mut collected) }`
-        if src.length > 0 then
+        -- buffer of its own (`with_capacity(size_hint().0)`: a claimed count again);
+        -- `if collected.len() > 0 { move_tail(collected.len()); fill(&mut collected) }`
+        if spliceLower hintCap lie src.length > maxCap then .ok (v, d, src, true)
+        else if src.length > 0 then
           match spliceMoveTail env v d src.length with
           | .error e => .error e
           | .ok (v, d) =>
@@ -119,9 +171,11 @@ def spliceBody (env : Env) (v : Vec) (d : DrainSt) (src : List Id) (hintCap : Na
         else .ok (v, d, src, false)
 
 /-- the part of `Splice::drop` after the `for_each(drop)` (its iterator is empty now), then the fields of
-    the `Splice` are dropped: `drain` (`Drain::drop`: the guard), `replace_with` -/
-def spliceFinish (env : Env) (v : Vec) (d : DrainSt) (src : List Id) (hintCap : Nat) : M (Vec × Bool × Bool) :=
-  match spliceBody env v d src hintCap with
+    the `Splice` are dropped — also by the unwind of a "capacity overflow": `drain` (`Drain::drop`: the guard
+    puts the tail where `tail_start` says), `replace_with` -/
+def spliceFinish (env : Env) (v : Vec) (d : DrainSt) (src : List Id) (hintCap : Nat) (lie : Option Nat) (maxCap : Nat) :
+    M (Vec × Bool × Bool) :=
+  match spliceBody env v d src hintCap lie maxCap with
   | .error e => .error e
   | .ok (v, d, src, unwound) =>
     match spliceDrainDrop env.bombs unwound v d with
@@ -129,7 +183,8 @@ def spliceFinish (env : Env) (v : Vec) (d : DrainSt) (src : List Id) (hintCap : 
     | .ok (v, p) => .ok (dropArgs v src, unwound || p, p)
 
 /-- `impl Drop for Splice`, then the fields: `drain` (`Drain::drop`), `replace_with` -/
-def spliceDrop (env : Env) (v : Vec) (d : DrainSt) (src : List Id) (hintCap : Nat) : M (Vec × Bool × Bool) :=
+def spliceDrop (env : Env) (v : Vec) (d : DrainSt) (src : List Id) (hintCap : Nat) (lie : Option Nat) (maxCap : Nat) :
+    M (Vec × Bool × Bool) :=
   match spliceDropRest env.bombs (d.end_ - d.ptr) v d with
   | .error e => .error e
   | .ok (v, d, true) =>
@@ -139,12 +194,12 @@ def spliceDrop (env : Env) (v : Vec) (d : DrainSt) (src : List Id) (hintCap : Na
     | .ok (v, _) => .ok (dropArgs v src, true, true)
   | .ok (v, d, false) =>
     -- `self.drain.iter = [].iter()`
-    spliceFinish env v { d with ptr := d.end_ } src hintCap
+    spliceFinish env v { d with ptr := d.end_ } src hintCap lie maxCap
 
 /-- `v.splice(start..end, replace_with)`, the caller pulls according to `script`, then drops the `Splice`.
     `slice::range` panics for `start > end` or `end > len`: the unwind drops `replace_with` -/
-def splice (env : Env) (v : Vec) (start end_ : Nat) (src : List Id) (hintCap : Nat) (script : List Pull) :
-    M (Out (List (Option Id))) :=
+def splice (env : Env) (v : Vec) (start end_ : Nat) (src : List Id) (hintCap : Nat) (lie : Option Nat) (maxCap : Nat)
+    (script : List Pull) : M (Out (List (Option Id))) :=
   if start > end_ ∨ end_ > v.len then .ok ⟨dropArgs v src, .panic false, []⟩
   else
     -- `self.set_len(start); Drain { tail_start: end, tail_len: len - end, iter: [start, end) }`
@@ -153,14 +208,45 @@ def splice (env : Env) (v : Vec) (start end_ : Nat) (src : List Id) (hintCap : N
     match drainPulls v d script [] with
     | .error e => .error e
     | .ok (v, d, rs) =>
-      match spliceDrop env v d src hintCap with
+      match spliceDrop env v d src hintCap lie maxCap with
       | .error e => .error e
       | .ok (v, panicked, inDrop) => .ok ⟨v, if panicked then .panic inDrop else .ret rs, []⟩
 
-/-- `splice` on lists (`BumpVec`: reservations are never refused): the range is replaced by `src`; what was
-    pulled went to the caller, the rest of the range is dropped.  When one of those destructors panics,
-    `replace_with` is dropped unused and the range is simply removed -/
-def spliceSpec (bombs : List Id) (xs : List Id) (start end_ : Nat) (src : List Id) (script : List Pull) :
+/-- what the list level cannot know about a `BumpVec`: its capacity and the layout bounds, and how the source
+    reports its length -/
+structure SpliceCaps where
+  cap : Nat
+  minCap : Nat
+  maxCap : Nat
+  hintCap : Nat
+  lie : Option Nat
+  deriving Repr, Inhabited
+
+def SpliceCaps.overflows (c : SpliceCaps) (len additional : Nat) : Bool :=
+  decide (additional > c.cap - len) && decide (max (max (c.cap * 2) (len + additional)) c.minCap > c.maxCap)
+
+/-- which prefix of `src` ends up in the vector, and whether `Splice::drop` unwound with "capacity overflow"
+    (`start..end_` of a vector of `xsLen` elements, nothing of the range left to drop) -/
+def spliceWritten (c : SpliceCaps) (start end_ xsLen : Nat) (src : List Id) : List Id × Bool :=
+  if end_ = xsLen then
+    -- no tail: `extend`
+    if c.overflows start (spliceLower c.hintCap c.lie src.length) then ([], true) else (src, false)
+  else
+    let gap := end_ - start
+    if src.length < gap then (src, false)
+    else
+      let rest := src.drop gap
+      let lower := spliceLower c.hintCap c.lie rest.length
+      if lower > 0 ∧ c.overflows xsLen lower then (src.take gap, true)
+      else if lower > rest.length then (src, false)
+      else if spliceLower c.hintCap c.lie (rest.drop lower).length > c.maxCap then (src.take (gap + lower), true)
+      else (src, false)
+
+/-- `splice` on lists: the range is replaced by `src`; what was pulled went to the caller, the rest of the
+    range is dropped.  When one of those destructors panics, `replace_with` is dropped unused and the range
+    is simply removed.  When a reservation for the CLAIMED number of further items overflows, the items
+    written so far stay between head and tail, the others are dropped with `replace_with`. -/
+def spliceSpec (bombs : List Id) (c : SpliceCaps) (xs : List Id) (start end_ : Nat) (src : List Id) (script : List Pull) :
     SpecOut (List (Option Id)) :=
   if start > end_ ∨ end_ > xs.length then { final := xs, dropped := src, exit := .panic false, rest := [] }
   else
@@ -171,6 +257,8 @@ def spliceSpec (bombs : List Id) (xs : List Id) (start end_ : Nat) (src : List I
     if r.2.any bombs.contains then
       { final := head ++ tail, dropped := r.2 ++ src, escaped := yielded r.1, exit := .panic true, rest := [] }
     else
-      { final := head ++ src ++ tail, dropped := r.2, escaped := yielded r.1, exit := .ret r.1, rest := [] }
+      let w := spliceWritten c start end_ xs.length src
+      { final := head ++ w.1 ++ tail, dropped := r.2 ++ src.drop w.1.length, escaped := yielded r.1,
+        exit := if w.2 then .panic false else .ret r.1, rest := [] }
 
 end Coll
